@@ -149,6 +149,18 @@ CLAIMED.update({
         design="6/C14"),
 })
 
+CLAIMED.update({
+    "C19": dict(
+        technique="Lean 4 proof (potential-function bound for every timed grant sequence of the leaky bucket; exact slicing of chunks; decision logic of the slow-rate check) + contract check of the real aiolimiter grants, windowed byte sums and abort points under a virtual clock",
+        text=("C19_bucket_bound (amounts granted in any interval of length T sum to at most capacity + r*T, for any number of interleaved "
+              "transfers), C19_charge_exact, C19_slow_iff, C19_not_aborted and the decided counterexample for the original charging are "
+              "proved; real download_file + real AsyncLimiter run under a virtual clock: grants must satisfy the bucket contract, every "
+              "window of accept events must obey limit*(T+60)+chunk, every byte must be charged; the real SlowRateProtector (virtual "
+              "datetime) must abort exactly at the chunk the model names."),
+        note="PARTIAL: 'not throttled below the limit' is checked on single transfers only (aiolimiter's wake-up policy is third-party). Known finding F-C19b (one chunk of slack per concurrent transfer with oversize chunks). Trusted: Lean kernel, model, harness virtual clock.",
+        design="6/C19"),
+})
+
 NOT_YET = {}
 
 
